@@ -246,6 +246,42 @@ theorem store_starts_new_history : ∀ (op : Op) (d : Bytes) (now : Int) (db : D
     simp [Spec.staleKey, hf, hlive] at hst
   | live r0 _ hsm _ => exact ⟨hsm.version, hmt⟩
 
+/-- The judgement the driver applies to every observed store (`Spec.storeHistory`, verdict `H`) is
+never violated by the model of the code: on the handle, for every operation, state and clock. -/
+theorem store_history_judgement : ∀ (op : Op) (now : Int) (db : DB), db.Inv →
+    Spec.storeHistory op now db (Model.dbRun op now db).db (Model.dbRun op now db).out ≠ some false := by
+  intro op now db h
+  unfold Spec.storeHistory
+  cases hd : Spec.storeDest op with
+  | none => simp
+  | some d =>
+    dsimp only
+    by_cases hE : Spec.isErr (Model.dbRun op now db).out = true
+    · simp [hE]
+    by_cases hne : Spec.emptySources op = true
+    · simp [hne]
+    by_cases hst : Spec.staleKey db now d = true
+    · simp [hst]
+    have hE' : Spec.isErr (Model.dbRun op now db).out = false := by simpa using hE
+    have hne' : emptyStore op = false := by
+      have : emptyStore op = Spec.emptySources op := by cases op <;> rfl
+      rw [this]; simpa using hne
+    have hst' : Spec.staleKey db now d = false := by simpa using hst
+    have hall := store_starts_new_history op d now db h hd hne' hst' hE'
+    simp only [hE', hne, hst', Bool.false_eq_true, Bool.or_self, if_false]
+    intro hc
+    injection hc with hc
+    have : ((Model.dbRun op now db).db.keys.all
+        (fun r' => r'.key != d || (r'.version == 1 && r'.mtime == now))) = true := by
+      rw [List.all_eq_true]
+      intro r' hr'
+      by_cases hk : r'.key = d
+      · obtain ⟨hv, hm⟩ := hall r' hr' hk
+        simp [hv, hm]
+      · simp [hk]
+    rw [this] at hc
+    cases hc
+
 /-- In the D05 situation the destination row continues: version + 1 (and mtime = now). -/
 theorem store_onto_stale_continues : ∀ (op : Op) (d : Bytes) (now : Int) (db : DB) (r : KeyRow),
     db.Inv → Spec.storeDest op = some d → emptyStore op = false → db.findKey d = some r →
